@@ -41,7 +41,15 @@ def body_prune(cube, **kw):
     types = cube['types']
     with notrace():
         g = new_graph()
-        nodes = add_nodes(g, types)
+        if cube.get('idperm'):
+            from maltoolbox.attackgraph import AttackGraphNode
+            nodes = []
+            for i, t in enumerate(types):
+                nd = AttackGraphNode(type=t, name='n%d' % i)
+                g.add_node(nd, node_id=cube['idperm'][i])      # list order differs from id order
+                nodes.append(nd)
+        else:
+            nodes = add_nodes(g, types)
         if 'defense' in types:
             for x in nodes:
                 if x.type == 'defense':
@@ -96,7 +104,9 @@ def queries(tier):
     def mk(name, n, tset, maxe, timeout):
         ebits = ['e%d%d' % (i, j) for i in range(n) for j in range(n)]
         params = [B('v%d' % i) for i in range(n)] + [B('c%d' % i) for i in range(n)] + [B(e) for e in ebits] + [B('dbl')]
-        cubes = [{'n': n, 'types': list(ts)} for ts in itertools.product(tset, repeat=n)]
+        cubes = [{'n': n, 'types': list(ts), 'idperm': ([2, 0, 1, 3][:n] if k else None)} for k, ts in enumerate(itertools.product(tset, repeat=n))]
+        for c in cubes[::2]:
+            c['idperm'] = None
         wit = dict({p.name: False for p in params})
         wit.update({'e01': True, 'e12': True})
         return Query(
